@@ -2,7 +2,7 @@
     the list of requests.  (pathB) *)
 From Coq Require Import List Arith Bool ZArith Lia.
 From P9V Require Import Refs.Model Refs.PathFS Refs.RefProofs Refs.RefStep Refs.FenceProofs
-  Refs.TreeInv Refs.CoherentTree Refs.CoherentDefs Refs.CoherentFs Refs.CoherentFrame Refs.CoherentStep Refs.CoherentUnlink
+  Refs.TreeInv Refs.CoherentTree Refs.CoherentDefs Refs.CoherentFs Refs.CoherentFrame Refs.CoherentStep Refs.CoherentTreeHyp Refs.CoherentUnlink
   Refs.CoherentRemove Refs.CoherentRename.
 Import ListNotations.
 
@@ -52,7 +52,7 @@ Qed.
 (** the requests covered so far *)
 Definition covered (o : op) : Prop :=
   match o with
-  | ORemove _ _ | ORename _ _ _ _ | ORenameAt _ _ _ _ _ => False
+  | OUnlinkAt _ _ _ | ORemove _ _ | ORename _ _ _ _ | ORenameAt _ _ _ _ _ => False
   | _ => True
   end.
 
@@ -61,7 +61,7 @@ Proof.
   destruct o; cbn [covered step]; intros Cv; try contradiction.
   - apply gok_attach. - apply gok_walk_op. - apply gok_clunk. - apply gok_open. - apply gok_create.
   - apply gok_mk. - apply gok_link. - apply gok_getattr. - apply gok_use. - apply gok_io.
-  - apply gok_setattr. - apply gok_readdir. - apply gok_readlink. - apply gok_unlinkat. - apply gok_xattrwalk. - apply gok_xattrcreate.
+  - apply gok_setattr. - apply gok_readdir. - apply gok_readlink. - apply gok_xattrwalk. - apply gok_xattrcreate.
   - apply gok_stop.
 Qed.
 
@@ -96,12 +96,12 @@ Qed.
 Lemma step_goodT o : gokT [] (fun s => snd (step pfs pfs_step o s)).
 Proof.
   destruct o; try (apply gok_gokT; apply step_good; exact I); cbn [step].
-  - apply gokT_remove. - apply gokT_rename. - apply gokT_renameat.
+  - apply gokT_remove. - apply gokT_unlinkat. - apply gokT_rename. - apply gokT_renameat.
 Qed.
 
-(** serverB's tree invariant (Refs/TreeInv.v: tree_ok, tree_closed) after every prefix of the history *)
+(** serverB's tree invariant (Refs/TreeInv.v: tree_ok - a theorem, TreeStep.tree_inv_history) after every prefix *)
 Definition TreeHyp (ops : list op) (s0 : st) : Prop :=
-  forall pre post, ops = pre ++ post -> TH (snd (run pfs pfs_step pre s0)).
+  forall pre post, ops = pre ++ post -> tree_ok pfs (snd (run pfs pfs_step pre s0)).
 
 Lemma hinv_stepT o s g : HInv s g -> TH s -> s_panic pfs (snd (step pfs pfs_step o s)) = false ->
   let s1 := snd (step pfs pfs_step o s) in HInv s1 (extend g s1).
@@ -115,39 +115,34 @@ Qed.
 Lemma run_cons o pre (s : st) : snd (run pfs pfs_step (o :: pre) s) = snd (run pfs pfs_step pre (snd (step pfs pfs_step o s))).
 Proof. cbn [run]. destruct (step pfs pfs_step o s) as [r s1]. cbn [snd]. destruct (run pfs pfs_step pre s1). reflexivity. Qed.
 
-Lemma hinv_runT ops : forall s g, TreeHyp ops s -> HInv s g -> HInv (fst (run_g ops s g)) (snd (run_g ops s g)).
+(** the panic flag is sticky along a history (RefStep.run_ok: [led] contains the monotonicity of s_panic) *)
+Lemma panic_run ops (s : st) : RefInv pfs s -> s_panic pfs (snd (run pfs pfs_step ops s)) = false -> s_panic pfs s = false.
 Proof.
-  induction ops as [|o ops IH]; intros s g TH0 H; [exact H|].
-  cbn [run_g]. apply IH.
-  - intros pre post E. rewrite <- run_cons. apply (TH0 (o :: pre) post). rewrite E. reflexivity.
-  - apply hinv_stepT; auto.
-    + apply (TH0 [] (o :: ops)). reflexivity.
-    + pose proof (TH0 [o] ops eq_refl) as (_ & TC). rewrite run_cons in TC. cbn [run snd] in TC. apply TC.
+  intros RI H. destruct (run_ok pfs pfs_step ops s RI) as (_ & (PM & _)).
+  destruct (s_panic pfs s) eqn:E; auto. rewrite (PM E) in H. discriminate.
+Qed.
+
+Lemma hinv_runT ops : forall s g, TreeHyp ops s -> s_panic pfs (snd (run pfs pfs_step ops s)) = false ->
+  HInv s g -> HInv (fst (run_g ops s g)) (snd (run_g ops s g)).
+Proof.
+  induction ops as [|o ops IH]; intros s g TH0 HP H; [exact H|].
+  cbn [run_g]. rewrite run_cons in HP.
+  assert (H1 : HInv (snd (step pfs pfs_step o s)) (extend g (snd (step pfs pfs_step o s)))).
+  { apply hinv_stepT; auto; [apply (TH0 [] (o :: ops)); reflexivity|].
+    destruct H as (RI & _). destruct (step_ok pfs pfs_step o s [] RI ltac:(intros x [])) as (RI1 & _).
+    apply (panic_run ops _ RI1 HP). }
+  apply IH; auto.
+  intros pre post E. rewrite <- run_cons. apply (TH0 (o :: pre) post). rewrite E. reflexivity.
 Qed.
 
 (** C08_coherent: every history (all twenty request kinds), PathFS, any failure injection *)
 Theorem coherent_history ops wga inj :
   TreeHyp ops (init_state pfs (pfs_init wga inj)) ->
+  s_panic pfs (snd (run pfs pfs_step ops (init_state pfs (pfs_init wga inj)))) = false ->
   let r := run_g ops (init_state pfs (pfs_init wga inj)) [] in coherent (fst r) (snd r).
 Proof.
-  intros TH0. cbv zeta.
+  intros TH0 HP. cbv zeta.
   assert (H0 : HInv (init_state pfs (pfs_init wga inj)) []).
   { split; [apply init_inv|]. split; [apply init_good | reflexivity]. }
-  destruct (hinv_runT ops _ _ TH0 H0) as (RI & G & L). eapply good_coherent; eauto.
-Qed.
-
-(** ... from serverB's two history theorems (to be proved in Refs/TreeProofs.v), for histories along which the
-    node graph stays acyclic (assumption B2, which PathFS enforces) and no fuelled recursion ran out of fuel *)
-Theorem coherent_history_tree :
-  tree_inv_holds -> tree_closed_holds ->
-  forall ops wga inj,
-  (forall pre post, ops = pre ++ post -> acyclic pfs (snd (run pfs pfs_step pre (init_state pfs (pfs_init wga inj)))) /\
-                                           s_oof pfs (snd (run pfs pfs_step pre (init_state pfs (pfs_init wga inj)))) = false) ->
-  let r := run_g ops (init_state pfs (pfs_init wga inj)) [] in coherent (fst r) (snd r).
-Proof.
-  intros TI TC ops wga inj HA. apply coherent_history. intros pre post E. split.
-  - apply TI.
-  - apply TC.
-    + intros pre' post' E'. apply (HA pre' (post' ++ post)). rewrite E, E', app_assoc. reflexivity.
-    + apply (HA pre post E).
+  destruct (hinv_runT ops _ _ TH0 HP H0) as (RI & G & L). eapply good_coherent; eauto.
 Qed.
